@@ -53,8 +53,22 @@ Encode(x) == /\ (MaxLen > 0 \/ last.kind # "enc")
              /\ hist' = IF Len(hist) < MaxLen THEN Append(hist, [a |-> "enc", neg |-> x.neg, mag |-> x.mag]) ELSE hist
              /\ UNCHANGED << legacy, chunk >>
 
+\* a table the encoder must refuse (for reasons that have nothing to do with integers): the refusal is an outcome of the
+\* call like any other -- it leaves the switch, and everything a later encode depends on, unchanged
+Euro100 == [i \in 1..100 |-> 8364]
+BadTables == { MkTable(<< [k |-> Euro100, v |-> MkIntV(IntOf(1))] >>),                                         \* key of 300 UTF-8 bytes
+               MkTable(<< [k |-> <<107>>, v |-> MkFloat(<<72, 7, 130, 135, 244, 156, 74, 29>>)] >>),           \* 1e39 does not fit binary32
+               MkTable(<< [k |-> <<107>>, v |-> MkDec(FALSE, <<9, 9, 9, 9, 9, 9, 9, 9, 9, 9, 9>>, 0)] >>),       \* unscaled value beyond int32
+               MkTable(<< [k |-> <<107>>, v |-> [t |-> "st", y |-> 1969, mo |-> 12, d |-> 31, h |-> 23, mi |-> 59, s |-> 59]] >>),
+               MkTable(<< [k |-> <<107>>, v |-> MkIntV([neg |-> FALSE, mag |-> <<1, 0, 0, 0, 0, 0, 0, 0, 0>>])] >>) }
+EncodeBad(b) == /\ MaxLen > 0
+                /\ last' = [kind |-> "bad", r |-> EncVal(legacy, b)]
+                /\ hist' = IF Len(hist) < MaxLen THEN Append(hist, [a |-> "bad", v |-> b]) ELSE hist
+                /\ UNCHANGED << legacy, chunk >>
+BadIsRefused == last.kind = "bad" => ~last.r.ok
+
 Reset == last.kind = "enc" /\ last' = [kind |-> "none"] /\ UNCHANGED << legacy, hist, chunk >>
-Next == (\E arg \in {"true", "false", "noarg"} : Toggle(arg)) \/ (\E x \in ChunkProbes(chunk) : Encode(x)) \/ Reset
+Next == (\E arg \in {"true", "false", "noarg"} : Toggle(arg)) \/ (\E x \in ChunkProbes(chunk) : Encode(x)) \/ Reset \/ (\E b \in BadTables : EncodeBad(b))
 Spec == Init /\ [][Next]_lvars
 View == << legacy, last, chunk >>         \* the history is an observation variable: hidden from the state space
 
